@@ -334,6 +334,7 @@ def make_kernel_stub(ctx):
         if k >= n:
             raise Undecided("kernel stub: needs k < n")
         batch = mat.shape[:-2]
+        cache = ctx.__dict__.setdefault('_kernel_cache', {})
         native = _ORIG['svd_kernel'](shadow(mat).astype(float), assume_full_rank, True, tolerance)
         if native.shape[-1] != n - k:
             raise Undecided("kernel stub: seed matrix is rank deficient")
@@ -348,11 +349,18 @@ def make_kernel_stub(ctx):
             detP = _det_obj(AP)
             if isinstance(detP, Alg) and not detP.is_const():
                 w.record_path(detP, '!=', 'kernel stub pivot')
-            tag = f"ker{len(w.names)}"
-            Phi = sym_array(w, tag, (n - k, n - k), native[b][F, :])
-            detPhi = _det_obj(Phi)
-            c = Cond(detPhi if isinstance(detPhi, Alg) else w.const(detPhi), '!=')
-            w.assume(c, 'kernel stub: columns independent')
+            # the external is a function: the same matrix (same normal form) gets the same basis symbols
+            from .alg import _poly_key
+            ckey = tuple((_poly_key(e.num), _poly_key(e.den)) if isinstance(e, Alg) else e for e in A.ravel())
+            if ckey in cache:
+                Phi = cache[ckey]
+            else:
+                tag = f"ker{len(w.names)}"
+                Phi = sym_array(w, tag, (n - k, n - k), native[b][F, :])
+                cache[ckey] = Phi
+                detPhi = _det_obj(Phi)
+                c = Cond(detPhi if isinstance(detPhi, Alg) else w.const(detPhi), '!=')
+                w.assume(c, 'kernel stub: columns independent')
             ctx.stub_uses.append("numerical.svd_kernel (solved form, free basis)")
             form = getattr(ctx, 'kernel_gs_form', None)
             if form is not None:
